@@ -12,6 +12,12 @@ from lentil.radiometry import Spectrum
 from vlib import gen
 from vlib.runner import Skip, Violation, enum, hyp, lentil_call
 
+# the check's own calls are issued with keywords or positionally in the documented order (vlib/callforms.py)
+from vlib import callforms as _cf
+lentil = _cf.proxy(lentil)
+fourier = _cf.proxy(fourier, "fourier.")
+detector = _cf.proxy(detector, "detector.")
+
 RULE = ("(1) every public entry point of a registry (constructors, multiply, propagate, fit_tilt, rescale, dft2/"
         "idft2, detector / blur / zernike / wfe / util functions, Spectrum operations) called on seeded inputs with "
         "every caller-owned array and object snapshotted, then again with the arrays frozen read-only; (2) programs "
